@@ -347,7 +347,8 @@ def instrument(func, shadows=None, loop_cuts=None, extra_globals=None, drop_call
     fn = ns[func.__name__]
     # closures: functions using free variables cannot be re-compiled this way
     if func.__closure__:
-        raise NotImplementedError('closure')
+        from .core import OutOfSubset
+        raise OutOfSubset('%s uses free variables (a closure / zero-argument super()): outside the re-compilation' % func.__qualname__)
     fn.__globals__  # same dict g
     # names defined at def-time in ns must be visible as globals for recursion
     g[func.__name__] = fn if func.__name__ not in (shadows or {}) else g[func.__name__]
